@@ -289,6 +289,23 @@ func (e *Exec) model(s *State, c *ssa.Call, fn *ssa.Function, full string, args 
 			return ret(mkBool(strings.HasPrefix(as, bs)))
 		}
 		unsupported("strings.HasPrefix on non-concrete")
+	case "strings.IndexRune":
+		t := textArg(args[0])
+		r, ok := args[1].(*T).intVal()
+		if !ok {
+			unsupported("IndexRune of symbolic rune")
+		}
+		if cs, ok := t.concrete(); ok {
+			return ret(mkInt(int64(strings.IndexRune(cs, rune(r)))))
+		}
+		if len(t.Frags) != 1 || t.Frags[0].Kind != FAtom {
+			unsupported("IndexRune of mixed text")
+		}
+		a := t.Frags[0].Atom
+		// deterministic: the same variable wherever the same call is made
+		idx := mkVar(fmt.Sprintf("indexrune!%s!%d", a, r), SInt)
+		s.assume(mkAnd(mkCmp(">=", idx, mkInt(-1)), mkCmp("<", idx, e.atomLen(s, a))))
+		return ret(idx)
 	case "strings.TrimSpace":
 		t := textArg(args[0])
 		if cs, ok := t.concrete(); ok {
